@@ -454,9 +454,11 @@ fn answer_inner(line: &str) -> String {
             };
             match LanguageIdentifier::from_bytes(&x) {
                 Ok(x) => format!(
-                    "ok {} {}",
+                    "ok {} {} str={} lang={}",
                     b(x == ys),
-                    b(x.language == ys) as u8
+                    b(x.language == ys) as u8,
+                    esc(x.to_string().as_bytes()),
+                    esc(x.language.as_str().as_bytes())
                 ),
                 _ => "err".to_string(),
             }
@@ -959,7 +961,10 @@ fn hist(a: &[&str]) -> String {
             Ok(Some(o)) => {
                 let s = loc.to_string();
                 let rp = Locale::from_bytes(s.as_bytes()).map_or(false, |y| y == loc);
-                out.push_str(&format!(" # {}@{};rp={}", o, render_loc(&loc), b(rp)));
+                // from_parts(into_parts(x)) == x, the extension string re-parsed (C17 on values built by mutation)
+                let (pl, ps, pr, pv, pe) = loc.clone().into_parts();
+                let pp = pe.parse::<ExtensionsMap>().map_or(false, |em| Locale::from_parts(pl, ps, pr, &pv, Some(em)) == loc);
+                out.push_str(&format!(" # {}@{};rp={};pp={}", o, render_loc(&loc), b(rp), b(pp)));
             }
             Ok(None) => {
                 out.push_str(" # na");
